@@ -12,6 +12,10 @@ Nothing is demanded of results with another status, of exceptions, or of calls t
 per-call alarm (the statement speaks about returned plans only); those are counted and listed in the evidence notes.
 Obligation names carry the function, '[custom]' for custom-pricing mode and '@limited(...)' when the call was given a
 budget (max_iter / max_nodes / stop through on_progress), so that default-option failures can be told apart.
+Round 2 (see the section 'round 2' below): width ladder (roll widths 100..5000, BFS oracle), type-count ladder (8..30
+piece types, planted perfect packings, optimum certified by the volume bound), history mode (argument lists reused and edited
+in place between calls, repeated calls, comparison with a fresh interpreter; extra obligation
+history:same-arguments-same-answer), and the pricing lemma on the wide instances.
 Lemma (DESIGN 7/C17 inner contract, needed for 'the LP value is a bound'): knapsack_pricing returns a fitting pattern
 whose reported value is its dual value and no pattern is better (exhaustive comparison in exact rationals).
 """
@@ -68,8 +72,10 @@ def make_pricer(columns, kind):
 
 
 # ------------------------------------------------------------------ one case
-def call_solver(case):
-    """Run the real function on the case. Returns (kind, payload, seconds): kind in result/exception/timeout."""
+def call_solver(case, live=None):
+    """Run the real function on the case. Returns (kind, payload, seconds): kind in result/exception/timeout.
+    live (history mode): {"demands": list, "sizes": list} or {"demands": list, "initial": list, "pricer": fn}: these very
+    objects are handed to the solver (no copies), so that state kept between calls under their identity is exercised."""
     use_repo()
     from solvor.bp import solve_bp
     from solvor.cg import solve_cg
@@ -90,18 +96,24 @@ def call_solver(case):
 
         kw["on_progress"] = cb
         kw["progress_interval"] = 1
-    demands = list(case["demands"])
+    demands = list(case["demands"]) if live is None else live["demands"]
     if case["mode"] == "cs":
         kw["roll_width"] = case["width"]
-        kw["piece_sizes"] = list(case["sizes"])
-    else:
+        kw["piece_sizes"] = list(case["sizes"]) if live is None else live["sizes"]
+    elif live is None:
         kw["pricing_fn"] = make_pricer(case["columns"], case.get("pricer", "best"))
         kw["initial_columns"] = [tuple(c) for c in case["initial"]]
+    else:
+        kw["pricing_fn"] = live["pricer"]
+        kw["initial_columns"] = live["initial"]
     old = signal.signal(signal.SIGALRM, _on_alarm)
     oldv = signal.signal(signal.SIGVTALRM, _on_alarm)
     t0 = time.process_time()
-    signal.alarm(WALL_BACKSTOP)
-    signal.setitimer(signal.ITIMER_VIRTUAL, float(case.get("timeout", CALL_TIMEOUT)))
+    budget = float(case.get("cpu_budget", case.get("timeout", CALL_TIMEOUT)))
+    # the verdict-relevant limit is the CPU budget; the wall-clock alarm only guards against a call that blocks without
+    # using CPU, and is far away (a fully loaded machine gave 22 CPU s in 300 wall s)
+    signal.alarm(int(max(WALL_BACKSTOP, 60 * budget)))
+    signal.setitimer(signal.ITIMER_VIRTUAL, budget)
     try:
         try:
             r = fn(demands, **kw)
@@ -121,7 +133,11 @@ def call_solver(case):
 
 
 def oracle_opt(case):
-    from oracles.cutting_stock import min_cover, min_rolls
+    from oracles.cutting_stock import min_cover, min_rolls, plan_from_rolls, planted_optimum
+    if case["mode"] == "cs" and case.get("planted") is not None:
+        # optimum known by construction: planted plan (checked) with as many rolls as the volume bound
+        plan = plan_from_rolls(case["sizes"], [(r[0], r[1]) for r in case["planted"]])
+        return planted_optimum(case["sizes"], case["width"], case["demands"], plan)
     if case["mode"] == "cs":
         return min_rolls(case["sizes"], case["width"], case["demands"])
     # custom mode: the solver may legitimately use its initial columns and whatever the pricer can return
@@ -133,14 +149,30 @@ def limited(case):
     return ",".join(sorted(o))
 
 
-def check_case(case, opt=None):
+def summary(kind, r):
+    """JSON-friendly digest of an answer (for same-arguments-same-answer comparisons)."""
+    if kind != "result":
+        return [kind]
+    sol = r.solution
+    if isinstance(sol, dict):
+        try:
+            sol = sorted([list(p), c] for p, c in sol.items())
+        except Exception:  # noqa: BLE001
+            sol = repr(sol)
+    else:
+        sol = repr(sol)
+    return ["result", r.status.name, repr(r.objective), sol]
+
+
+def check_case(case, opt=None, live=None):
     """Evaluate the contract. Returns dict(kind, status, seconds, bad=[(obligation, detail)], usable, exact_obj)."""
     use_repo()
     from solvor.types import Status
     if opt is None:
         opt = oracle_opt(case)[0]
-    kind, r, secs = call_solver(case)
-    out = {"kind": kind, "seconds": secs, "bad": [], "usable": False, "status": None, "inexact_obj": False}
+    kind, r, secs = call_solver(case, live)
+    out = {"kind": kind, "seconds": secs, "bad": [], "usable": False, "status": None, "inexact_obj": False,
+           "summary": summary(kind, r)}
     if kind != "result":
         out["what"] = r
         return out
@@ -207,8 +239,10 @@ def worker(chunk):
     for inst in chunk:
         opt = oracle_opt(inst)[0]
         for solver in inst.get("solvers", ("cg", "bp")):
-            case = {k: v for k, v in inst.items() if k != "solvers"}
+            case = {k: v for k, v in inst.items() if k not in ("solvers", "bp_opts")}
             case["solver"] = solver
+            if solver == "bp" and inst.get("bp_opts"):
+                case["opts"] = dict(inst["bp_opts"])
             o = check_case(case, opt)
             res.append((case, opt, o["kind"], o["status"], o["usable"], round(o["seconds"], 4), o["bad"], o.get("what"), o["inexact_obj"]))
     return res
@@ -348,6 +382,573 @@ def rand_custom(rng):
 
 def chunks(lst, size):
     return [lst[i:i + size] for i in range(0, len(lst), size)]
+
+
+# ------------------------------------------------------------------ round 2: width ladder, type-count ladder, history mode
+# Families aimed at what small-scope enumeration cannot reach: code paths that depend on the SIZE of the roll width
+# (DP tables, scaling), on the NUMBER of piece types (long degenerate column-generation runs), and on state kept between
+# calls.  Verdicts come from exact or certifying oracles only: BFS over patterns where the instance has few types and
+# small demands (width ladder), optimum-by-construction (planted perfect packing + volume bound) where it has many.
+FIT_SHAPES = {2: [(1, 1), (2,)], 3: [(1, 1, 1), (2, 1), (1, 2), (3,)],
+              4: [(1, 1, 1, 1), (2, 1, 1), (1, 1, 2), (2, 2), (3, 1), (1, 3), (4,)]}
+WIDTHS_QUICK = [100, 128, 250, 256, 499, 500, 501, 511, 512, 513, 520, 600, 640, 700, 800, 900, 999, 1000, 1001, 1023, 1024,
+                1025, 1100]
+WIDTHS_QUICK_WIDE = [2048, 4096]          # a few instances with <= 3 piece types
+WIDTHS_FULL = WIDTHS_QUICK + [505, 550, 625, 750, 1200, 1500, 2000, 2047, 2048, 2049, 2500, 3000, 4095, 4096, 4097, 5000]
+BP_NODE_LIMIT = 30           # solve_bp on planted instances whose root LP is fractional (triples, mixed rolls)
+LADDER_BUDGET_QUICK = 40     # CPU seconds per call (unchanged tree: <= 2 s on the quick instances)
+LADDER_BUDGET_FULL = 200     # (unchanged tree: <= 10 s at width 4096..5000)
+
+
+def plant_fit(rng, W, shape, taken, lo):
+    """Distinct sizes (one per entry of `shape`, none in `taken`, each in lo..W) with sum shape_j*size_j == W exactly:
+    a zero-trim pattern of sum(shape) pieces.  None when the draw fails."""
+    p, t = sum(shape), len(shape)
+    base = W // p
+    spread = rng.choice([1, 2, 3, 5, max(1, W // 100), max(1, W // 25), max(1, W // 10)])
+    for _ in range(60):
+        ss = [base + rng.randint(-spread, spread) for _ in range(t - 1)]
+        rest = W - sum(c * x for c, x in zip(shape, ss))
+        if rest <= 0 or rest % shape[-1]:
+            continue
+        ss.append(rest // shape[-1])
+        if min(ss) < lo or max(ss) > W or len(set(ss)) < t or set(ss) & taken:
+            continue
+        return ss
+    return None
+
+
+def width_instance(rng, W, nmax=5):
+    """Few piece types (2..nmax), sizes >= W/8 (W/6 from 4 types on), one or more planted zero-trim patterns of 2..4
+    pieces (also patterns sharing types: complement of two pieces, of one piece, of twice a piece), demands = small
+    multiples of planted patterns (+ sometimes a few extra pieces), capped so that the BFS oracle stays small."""
+    for _ in range(300):
+        n = rng.randint(2, nmax)
+        lo = max(1, W // (8 if n <= 3 else 6))
+        p1 = rng.choice([2, 3, 3, 3, 4, 4])
+        sh = rng.choice([x for x in FIT_SHAPES[p1] if len(x) <= n])
+        ss = plant_fit(rng, W, sh, set(), lo)
+        if ss is None:
+            continue
+        sizes = list(ss)
+        fits = [(list(range(len(ss))), sh)]
+        ok = True
+        while ok and len(sizes) < n:
+            r = n - len(sizes)
+            k = rng.randrange(4)
+            if k == 0:
+                sh2 = rng.choice([x for q in (2, 3, 4) for x in FIT_SHAPES[q] if len(x) <= r])
+                s2 = plant_fit(rng, W, sh2, set(sizes), lo)
+                if s2 is None:
+                    ok = False
+                else:
+                    fits.append((list(range(len(sizes), len(sizes) + len(s2))), sh2))
+                    sizes += s2
+            elif k == 1 and len(sizes) >= 2:
+                a, b = rng.sample(range(len(sizes)), 2)
+                c = W - sizes[a] - sizes[b]
+                if c < lo or c in sizes:
+                    ok = False
+                else:
+                    fits.append(([a, b, len(sizes)], (1, 1, 1)))
+                    sizes.append(c)
+            elif k == 2:
+                a = rng.randrange(len(sizes))
+                mult = rng.choice([1, 2])
+                c = W - mult * sizes[a]
+                if c < lo or c in sizes:
+                    ok = False
+                else:
+                    fits.append(([a, len(sizes)], (mult, 1)))
+                    sizes.append(c)
+            else:
+                c = rng.randint(lo, W)
+                if c in sizes:
+                    ok = False
+                else:
+                    sizes.append(c)
+        if not ok:
+            continue
+        dmax = {2: 6, 3: 6, 4: 4}.get(n, 3)
+        dem = [0] * n
+        chosen = [f for f in fits if rng.random() < 0.7] or [fits[0]]
+        for idx, shp in chosen:
+            k = rng.randint(1, 3)
+            for i, c in zip(idx, shp):
+                dem[i] += k * c
+        pure = True
+        if rng.random() < 0.4:
+            pure = False
+            for _x in range(rng.randint(1, 2)):
+                dem[rng.randrange(n)] += rng.randint(1, 2)
+        if any(d > dmax for d in dem):
+            pure = False
+        dem = [min(d, dmax) for d in dem]
+        perm = list(range(n))
+        rng.shuffle(perm)
+        return {"mode": "cs", "sizes": [sizes[i] for i in perm], "width": W, "demands": [dem[i] for i in perm],
+                "family": "width-ladder" + ("/pure" if pure else "")}
+    return None
+
+
+def gen_width_ladder(rng, quick):
+    out = []
+    if quick:
+        for W in WIDTHS_QUICK:
+            for _ in range(3 if W <= 500 else 5):
+                out.append(width_instance(rng, W))
+        for W in WIDTHS_QUICK_WIDE:
+            for _ in range(2):
+                out.append(width_instance(rng, W, nmax=3))
+    else:
+        for W in WIDTHS_FULL:
+            cnt = 16 if W <= 1100 else (8 if W <= 2100 else 5)
+            for _ in range(cnt):
+                out.append(width_instance(rng, W, nmax=5 if W <= 2100 else 4))
+    out = [x for x in out if x is not None]
+    for x in out:
+        x["cpu_budget"] = LADDER_BUDGET_QUICK if quick else LADDER_BUDGET_FULL
+    return out
+
+
+TYPE_FAMILIES = ("pairs", "pairs-demands", "triples", "mixed-distinct", "mixed-shared")
+
+
+def planted_rolls(rng, W, k, family, types=None, frac=6):
+    """k rolls (or, with `types`, as many rolls as it takes to have that many distinct sizes), each filled EXACTLY by
+    2..4 pieces, every piece longer than W/frac (frac 3: a roll holds at most two pieces - bin packing seen as cutting
+    stock; frac 4: at most three; ...).  pairs*: one piece > W/2 plus its complement; triples: 3 pieces; mixed-*: 2..4
+    pieces.  pairs/triples/mixed-distinct: all sizes distinct and every roll cut once (demand 1); pairs-demands: every
+    roll cut 1..3 times; mixed-shared: pieces are re-used between rolls (small demands add up)."""
+    lo = max(2, W // frac + 1)
+    rolls, used, pool = [], set(), []
+    distinct = family != "mixed-shared"
+    for _ in range(k if types is None else 10 * types):
+        if types is not None and len(used) >= types:
+            break
+        for _try in range(600):
+            if family.startswith("pairs"):
+                p = 2
+            elif family == "triples":
+                p = 3
+            else:
+                p = rng.choice([q for q in (2, 2, 3, 3, 4) if q * lo <= W])
+            if p == 2 and distinct:
+                if W - lo < W // 2 + 1:
+                    return None
+                a = rng.randint(W // 2 + 1, W - lo)
+                roll = [a, W - a]
+            elif distinct:
+                if p * lo > W:
+                    return None
+                # p pieces >= lo summing to W: lo each plus a random composition of the rest
+                rest = W - p * lo
+                cuts = sorted(rng.randint(0, rest) for _c in range(p - 1))
+                roll = [lo + (y - x) for x, y in zip([0] + cuts, cuts + [rest])]
+            else:
+                roll = [rng.choice(pool) if pool and rng.random() < 0.6 else rng.randint(lo, W - lo) for _ in range(p - 1)]
+                roll.append(W - sum(roll))
+            if min(roll) < lo:
+                continue
+            if distinct and (len(set(roll)) < p or set(roll) & used):
+                continue
+            break
+        else:
+            return None
+        used |= set(roll)
+        pool += [x for x in roll if x not in pool]
+        mult = rng.randint(1, 3) if family == "pairs-demands" else (rng.randint(1, 2) if family == "mixed-shared" else 1)
+        rolls.append([roll, mult])
+    return rolls
+
+
+def instance_from_rolls(rolls, W, order, rng, family):
+    sizes = sorted({x for r, _ in rolls for x in r})
+    if order == "desc":
+        sizes.reverse()
+    elif order == "shuffled":
+        rng.shuffle(sizes)
+    idx = {x: i for i, x in enumerate(sizes)}
+    dem = [0] * len(sizes)
+    for r, mult in rolls:
+        for x in r:
+            dem[idx[x]] += mult
+    return {"mode": "cs", "sizes": sizes, "width": W, "demands": dem, "planted": [[list(r), m] for r, m in rolls],
+            "family": f"type-ladder/{family}/{order}"}
+
+
+def type_instance(rng, family, ntypes, W, frac=6):
+    """Planted perfect packing with about `ntypes` piece types (exactly, for the distinct families), pieces > W/frac."""
+    per = 2 if family.startswith("pairs") else 3
+    for _ in range(50):
+        if family.startswith("mixed"):
+            rolls = planted_rolls(rng, W, 0, family, types=ntypes, frac=frac)  # rolls are added until the type count is reached
+        else:
+            rolls = planted_rolls(rng, W, max(2, -(-ntypes // per)), family, frac=frac)
+        if rolls is None:
+            continue
+        inst = instance_from_rolls(rolls, W, rng.choice(["asc", "asc", "desc", "shuffled"]), rng, family)
+        inst["family"] += f"/pieces>width/{frac}"
+        return inst
+    return None
+
+
+def gen_type_ladder(rng, quick):
+    """plan rows: (family, type counts, [(width, frac), ...] cycled over the type counts (quick) / all (thorough), repetitions)"""
+    out = []
+    if quick:
+        plan = [("pairs", tuple(range(8, 31, 2)), [(128, 3)], 1),
+                ("pairs", (10, 16, 20, 26, 30), [(80, 4), (100, 6)], 1),
+                ("pairs-demands", (8, 12, 16, 20, 24), [(128, 3), (64, 6), (100, 4)], 1),
+                ("triples", (9, 15, 21), [(200, 4), (100, 6)], 1),
+                ("mixed-distinct", (8, 14, 20, 26), [(100, 6), (128, 5)], 1),
+                ("mixed-shared", (8, 12, 16, 20), [(60, 6), (100, 4)], 1)]
+        cycle = True
+    else:
+        plan = [("pairs", tuple(range(8, 31, 2)), [(100, 3), (128, 3), (200, 3), (80, 4), (127, 4), (60, 6), (100, 6), (257, 5)], 1),
+                ("pairs-demands", tuple(range(8, 31, 2)), [(128, 3), (200, 3), (80, 4), (64, 6), (128, 6)], 1),
+                ("triples", (9, 12, 15, 18, 21, 24, 27, 30), [(200, 4), (300, 4), (100, 6), (127, 6), (128, 5)], 1),
+                ("mixed-distinct", tuple(range(8, 31, 2)), [(100, 6), (128, 5), (200, 5), (300, 4)], 1),
+                ("mixed-shared", tuple(range(8, 31, 2)), [(60, 6), (100, 4), (128, 5), (200, 6)], 1)]
+        cycle = False
+    for family, counts, wf, reps in plan:
+        for j, nt in enumerate(counts):
+            for W, frac in ([wf[j % len(wf)]] if cycle else wf):
+                for _ in range(reps):
+                    inst = type_instance(rng, family, nt, W, frac)
+                    if inst is not None:
+                        inst["cpu_budget"] = LADDER_BUDGET_QUICK if quick else LADDER_BUDGET_FULL
+                        if not family.startswith("pairs") and not (not quick and len(inst["sizes"]) <= 10):
+                            # fractional root LP: default solve_bp walks through its 10 000 nodes (measured 415 CPU s at 18 types,
+                            # answer FEASIBLE); the call is made with a node limit instead and the obligation says so
+                            inst["bp_opts"] = {"max_nodes": BP_NODE_LIMIT}
+                        out.append(inst)
+    return out
+
+
+def est_cost(inst):
+    """Rough cost rank (bigger first in the pool): width x types x pieces per roll."""
+    if inst.get("mode") != "cs":
+        return 0
+    return inst["width"] * sum(inst["width"] // s for s in inst["sizes"]) * len(inst["sizes"])
+
+
+# ---- history mode
+def assign_in_place(dst, src):
+    """Make list `dst` equal to `src` by element assignments / append / del on the SAME list object."""
+    for i in range(min(len(dst), len(src))):
+        if dst[i] != src[i]:
+            dst[i] = src[i]
+    if len(dst) > len(src):
+        del dst[len(src):]
+    else:
+        dst.extend(src[len(dst):])
+
+
+def make_live_pricer(cols, kind):
+    """Like make_pricer, but reads the list object `cols` at every call (the list is edited between solver calls)."""
+    def price(duals):
+        return make_pricer(list(cols), kind)(duals)
+    return price
+
+
+def edit_cs(rng, inst):
+    """A small edit of a small cutting-stock instance (result is again inside the quantifier)."""
+    sizes, dem, W = list(inst["sizes"]), list(inst["demands"]), inst["width"]
+    n = len(sizes)
+    k = rng.randrange(7)
+    if k == 0 or n == 0:
+        if n < 4:
+            sizes.append(rng.randint(1, W))
+            dem.append(rng.randint(0, 4))
+        else:
+            dem[rng.randrange(n)] = rng.randint(0, 4)
+    elif k == 1:
+        dem[rng.randrange(n)] = rng.randint(0, 6 if n < 4 else 4)
+    elif k == 2 and n > 1:
+        i = rng.randrange(n)
+        del sizes[i], dem[i]
+    elif k == 3 and n > 1:
+        i, j = rng.sample(range(n), 2)
+        sizes[i], sizes[j] = sizes[j], sizes[i]
+        dem[i], dem[j] = dem[j], dem[i]
+    elif k == 4:
+        W = max(max(sizes), min(16, W + rng.choice([-2, -1, 1, 2, 3])))
+    elif k == 5:
+        sizes[rng.randrange(n)] = rng.randint(1, W)
+    else:
+        dem = [min(d + 1, 6 if n < 4 else 4) for d in dem]
+    return {"mode": "cs", "sizes": sizes, "width": W, "demands": dem}
+
+
+def edit_custom(rng, inst):
+    cols = [list(c) for c in inst["columns"]]
+    ini = [list(c) for c in inst["initial"]]
+    dem = list(inst["demands"])
+    m = len(dem)
+    k = rng.randrange(5)
+    if k == 0:
+        cols.append([rng.randint(0, 3) for _ in range(m)])
+    elif k == 1 and len(cols) > 1:
+        del cols[rng.randrange(len(cols))]
+    elif k == 2:
+        dem[rng.randrange(m)] = rng.randint(0, 5)
+    elif k == 3:
+        c = cols[rng.randrange(len(cols))]
+        c[rng.randrange(m)] = rng.randint(0, 3)
+    else:
+        ini.append([rng.randint(0, 2) for _ in range(m)])
+    return {"mode": "custom", "columns": cols, "initial": ini, "demands": dem}
+
+
+CALL_PLANS = (["cg"], ["bp"], ["cg", "bp"], ["bp", "bp"], ["cg", "cg"], ["bp", "cg"])
+
+
+def gen_histories(rng, quick):
+    """Histories: a list of steps {inst, calls}; the argument lists of the first step are created once and edited in
+    place to every later instance; the last step always repeats its last call."""
+    out = []
+
+    def finish(kind, steps, budget, family, pricer=None):
+        for st in steps:
+            st["calls"] = list(rng.choice(CALL_PLANS))
+        last = steps[-1]["calls"]
+        last.append(last[-1])
+        h = {"mode": "history", "kind": kind, "steps": steps, "cpu_budget": budget, "family": family}
+        if pricer:
+            h["pricer"] = pricer
+        out.append(h)
+
+    # (1) small instances with the BFS oracle, 3..6 edits
+    for _ in range(120 if quick else 1500):
+        inst = rand_cs(rng)
+        steps = [{"inst": inst}]
+        for _e in range(rng.randint(2, 5)):
+            inst = edit_cs(rng, inst)
+            steps.append({"inst": inst})
+        finish("cs", steps, 3 if quick else CALL_TIMEOUT, "small-edits")
+    # (2) custom pricing: the column list read by the (one) pricing function, the initial-column list and the demands are edited
+    for _ in range(60 if quick else 800):
+        inst = rand_custom(rng)
+        pricer = inst.pop("pricer")
+        steps = [{"inst": inst}]
+        for _e in range(rng.randint(2, 4)):
+            inst = edit_custom(rng, inst)
+            steps.append({"inst": inst})
+        finish("custom", steps, 3 if quick else CALL_TIMEOUT, "custom-edits", pricer)
+    # (3) planted perfect packings with many types: rolls dropped / added / all counts doubled / types reversed
+    for _ in range(8 if quick else 80):
+        W = rng.choice([100, 128])
+        fam = rng.choice(["pairs", "pairs", "pairs", "triples", "mixed-distinct"])
+        frac = rng.choice([3, 3, 4, 6]) if fam == "pairs" else 6
+        rolls = planted_rolls(rng, W, rng.randint(4, 9 if fam == "pairs" else 6), fam, frac=frac)
+        if rolls is None:
+            continue
+        order = rng.choice(["asc", "desc", "shuffled"])
+        steps = [{"inst": instance_from_rolls(rolls, W, order, rng, fam)}]
+        for _e in range(rng.randint(2, 3)):
+            k = rng.randrange(4)
+            rolls = [[list(r), m] for r, m in rolls]
+            if k == 0 and len(rolls) > 2:
+                del rolls[rng.randrange(len(rolls))]
+            elif k == 1:
+                extra = planted_rolls(rng, W, 1, fam, frac=frac)
+                if extra and not (set(extra[0][0]) & {x for r, _ in rolls for x in r}):
+                    rolls.append(extra[0])
+            elif k == 2:
+                rolls = [[r, 2 * m] for r, m in rolls] if max(m for _, m in rolls) <= 2 else rolls
+            else:
+                rolls.reverse()
+                order = {"asc": "desc", "desc": "asc"}.get(order, order)
+            steps.append({"inst": instance_from_rolls(rolls, W, order, rng, fam)})
+        finish("cs", steps, LADDER_BUDGET_QUICK if quick else LADDER_BUDGET_FULL, "planted-rolls-edited")
+        if fam != "pairs":
+            out[-1]["bp_opts"] = {"max_nodes": 10}
+    # (4) wide rolls: independent width-ladder instances written one after the other into the same lists
+    for _ in range(6 if quick else 60):
+        Ws = [rng.choice([w for w in WIDTHS_QUICK if w >= 499]) for _x in range(rng.randint(2, 3))]
+        if rng.random() < 0.5:
+            Ws = [Ws[0]] * len(Ws)
+        steps = []
+        for W in Ws:
+            inst = width_instance(rng, W, nmax=4)
+            if inst is not None:
+                steps.append({"inst": inst})
+        if len(steps) >= 2:
+            finish("cs", steps, LADDER_BUDGET_QUICK if quick else LADDER_BUDGET_FULL, "wide-rolls-rewritten")
+    return out
+
+
+def run_history(hist, want_last=False):
+    """Execute a history in this process.  Returns (records, last) with records = list of
+    (step index, call index, snapshot case, opt, check_case output, detail of a same-arguments-different-answer event or None)."""
+    kind = hist["kind"]
+    live = None
+    recs = []
+    last = None
+    mutated = 0
+    for si, step in enumerate(hist["steps"]):
+        inst = {k: v for k, v in step["inst"].items() if k != "family"}
+        if kind == "cs":
+            if live is None:
+                live = {"demands": list(inst["demands"]), "sizes": list(inst["sizes"])}
+        else:
+            inst = dict(inst, pricer=hist.get("pricer", "best"))
+            if live is None:
+                live = {"demands": list(inst["demands"]), "initial": [tuple(c) for c in inst["initial"]],
+                        "columns": [tuple(c) for c in inst["columns"]]}
+                live["pricer"] = make_live_pricer(live["columns"], inst["pricer"])
+        opt = oracle_opt(inst)[0]
+        seen = {}
+        for ci, solver in enumerate(step["calls"]):
+            # (re)write the instance into the SAME objects: the edit between calls, and the repair of anything a
+            # previous call may have done to its arguments (counted)
+            before = repr(sorted((k, v) for k, v in live.items() if k != "pricer"))
+            assign_in_place(live["demands"], list(inst["demands"]))
+            if kind == "cs":
+                assign_in_place(live["sizes"], list(inst["sizes"]))
+            else:
+                assign_in_place(live["initial"], [tuple(c) for c in inst["initial"]])
+                assign_in_place(live["columns"], [tuple(c) for c in inst["columns"]])
+            if ci > 0 and before != repr(sorted((k, v) for k, v in live.items() if k != "pricer")):
+                mutated += 1
+            snap = dict(inst, solver=solver, cpu_budget=hist.get("cpu_budget", CALL_TIMEOUT))
+            if solver == "bp" and hist.get("bp_opts"):
+                snap["opts"] = dict(hist["bp_opts"])
+            o = check_case(snap, opt, live)
+            diff = None
+            if solver in seen and seen[solver] != o["summary"] and "timeout" not in (seen[solver][0], o["summary"][0]):
+                diff = f"call {ci} of step {si} answers {o['summary']}, the same call just before answered {seen[solver]}"
+            seen[solver] = o["summary"]
+            recs.append((si, ci, snap, opt, o, diff))
+            last = (snap, o["summary"])
+    if want_last:
+        return recs, last, mutated
+    return recs
+
+
+def hist_prefix(hist, si, ci):
+    steps = [dict(st) for st in hist["steps"][:si + 1]]
+    steps[-1] = dict(steps[-1], calls=list(steps[-1]["calls"][:ci + 1]))
+    return dict(hist, steps=steps)
+
+
+def fn_name(snap):
+    return ("solve_bp" if snap["solver"] == "bp" else "solve_cg") + ("" if snap["mode"] == "cs" else "[custom]")
+
+
+def fresh_process(snaps):
+    """The answers of a NEW interpreter (same tree) to the listed single calls."""
+    import json
+    import os
+    import subprocess
+    import sys
+    from vf.core import VERIF
+    if not snaps:
+        return []
+    p = subprocess.run([sys.executable, "-m", "checks.C17", "--fresh"], input=json.dumps(snaps), capture_output=True, text=True,
+                       cwd=VERIF, env=dict(os.environ))
+    if p.returncode != 0:
+        raise RuntimeError("fresh-process helper failed: " + p.stderr[-600:])
+    return json.loads(p.stdout)
+
+
+def fresh_main():
+    import json
+    import sys
+    snaps = json.loads(sys.stdin.read())
+    out = []
+    for snap in snaps:
+        kind, r, _ = call_solver(snap)
+        out.append(summary(kind, r))
+    print(json.dumps(out))
+
+
+def history_worker(chunk):
+    """chunk: list of histories -> dict of counters + violations."""
+    acc = {"histories": 0, "calls": 0, "usable": 0, "viol": [], "repeated_compared": 0, "fresh_compared": 0, "defects": [],
+           "arguments_modified_by_solver": 0, "timeouts": 0, "exceptions": 0, "keys": [], "cpu": 0.0, "by_family": {}}
+    lasts = []
+    for hist in chunk:
+        acc["histories"] += 1
+        fam = acc["by_family"].setdefault(hist.get("family", "?"), {"histories": 0, "calls": 0, "usable": 0, "violating_calls": 0})
+        fam["histories"] += 1
+        try:
+            recs, last, mutated = run_history(hist, want_last=True)
+        except Exception as e:  # noqa: BLE001  (oracle / generator trouble: a checker defect, not a verdict)
+            acc["defects"].append(f"history {hist.get('family')}: {type(e).__name__}: {e}")
+            continue
+        acc["arguments_modified_by_solver"] += mutated
+        for si, ci, snap, opt, o, diff in recs:
+            acc["calls"] += 1
+            fam["calls"] += 1
+            acc["cpu"] += o["seconds"]
+            if o["kind"] == "timeout":
+                acc["timeouts"] += 1
+            elif o["kind"] == "exception":
+                acc["exceptions"] += 1
+            if o["usable"]:
+                acc["usable"] += 1
+                fam["usable"] += 1
+                if any(d > 0 for d in snap["demands"]) and si > 0:
+                    acc["keys"].append(repr((hist.get("family"), sorted((k, repr(v)) for k, v in hist_prefix(hist, si, ci).items()))))
+            if ci > 0:
+                acc["repeated_compared"] += 1
+            case = hist_prefix(hist, si, ci)
+            if o["bad"] or diff:
+                fam["violating_calls"] += 1
+            for obn, detail in o["bad"]:
+                acc["viol"].append((obn, case, f"history step {si} call {ci} ({snap['solver']}): " + detail))
+            if diff:
+                acc["viol"].append((f"C17/{fn_name(snap)}/history:same-arguments-same-answer", case, diff))
+        if last is not None and last[1][0] == "result":
+            lasts.append((hist, last))
+    try:
+        answers = fresh_process([snap for _h, (snap, _s) in lasts])
+        for (hist, (snap, here)), there in zip(lasts, answers):
+            if there[0] != "result":
+                continue
+            acc["fresh_compared"] += 1
+            if here != there:
+                acc["viol"].append((f"C17/{fn_name(snap)}/history:same-arguments-same-answer", dict(hist, fresh=True),
+                                    f"last call of the history answers {here}; a fresh interpreter answers {there} to the same arguments"))
+    except Exception as e:  # noqa: BLE001
+        acc["defects"].append(f"fresh-process comparison not run: {e}")
+    return acc
+
+
+# ---- lemma on the ladder: knapsack_pricing on wide rolls against exhaustive enumeration
+def pricing_ladder_worker(chunk):
+    use_repo()
+    from fractions import Fraction
+    from oracles.cutting_stock import all_patterns
+    from solvor.utils.pricing import knapsack_pricing
+    out = []
+    for sizes, W, dual_list in chunk:
+        pats = all_patterns(sizes, W)
+        for duals in dual_list:
+            fr = [Fraction(a, b) for a, b in duals]
+            best = max(sum(f * q for f, q in zip(fr, pat)) for pat in pats)
+            case = {"mode": "pricing", "sizes": list(sizes), "width": W, "duals": [list(d) for d in duals]}
+            out.append((case, best > 1, check_pricing(case, knapsack_pricing, best)))
+    return out
+
+
+def gen_pricing_ladder(rng, insts, per):
+    """Dual vectors for wide instances: grid values, 1/p on every type, size/width (the LP duals of a perfect packing:
+    every zero-trim pattern has value exactly 1), and size/width scaled up by 1/64 (zero-trim patterns just above 1)."""
+    items = []
+    for inst in insts:
+        sizes, W = inst["sizes"], inst["width"]
+        n = len(sizes)
+        cands = [[rng.choice(DUAL_GRID_FULL) for _ in range(n)] for _ in range(2)]
+        p = rng.choice([2, 3, 4])
+        cands.append([(1, p)] * n)
+        cands.append([(s, W) for s in sizes])
+        cands.append([(65 * s, 64 * W) for s in sizes])
+        rng.shuffle(cands)
+        items.append((list(sizes), W, [[tuple(d) for d in c] for c in cands[:per]]))
+    return items
 
 
 # ------------------------------------------------------------------ lemma: knapsack pricing is exact
@@ -493,7 +1094,36 @@ def run(ctx: Ctx):
     items = [all_items[i] for i in order]
     for it in items:
         it["timeout"] = 3 if ctx.quick else CALL_TIMEOUT
-    results = pmap(worker_tagged, chunks(items, 8), chunksize=1)
+
+    # round-2 families (own generator: the blocks above are unchanged)
+    rng3 = random.Random(ctx.seed + 29)
+    wl = gen_width_ladder(rng3, ctx.quick)
+    tl = gen_type_ladder(rng3, ctx.quick)
+    hists = gen_histories(rng3, ctx.quick)
+    n_small_spaces = len(spaces)
+    spaces.append(("width ladder: roll widths " + ", ".join(str(w) for w in sorted(set(x["width"] for x in wl))) +
+                   "; 2..5 piece types of size >= width/8, planted zero-trim patterns of 2..4 pieces, demands <= 6 "
+                   "(<= 4 / 3 from 4 / 5 types); exact optimum by BFS over patterns; default options", wl))
+    spaces.append(("type-count ladder: 8..30 piece types, planted perfect packings (families pairs, pairs-demands, triples, "
+                   "mixed-distinct, mixed-shared; widths 60..300), optimum = number of planted rolls = volume bound; default options", tl))
+    heavy = []
+    for si in (n_small_spaces, n_small_spaces + 1):
+        for inst in spaces[si][1]:
+            inst["_s"] = si
+            heavy.append(inst)
+    heavy.sort(key=est_cost, reverse=True)
+    pl_items = gen_pricing_ladder(rng3, [x for x in wl if ctx.quick is False or x["width"] <= 1100], 2 if ctx.quick else 3)
+    pr_items, glen = gen_pricing(ctx.quick)
+    big_h = [h for h in hists if h["family"] in ("planted-rolls-edited", "wide-rolls-rewritten")]
+    small_h = [h for h in hists if h["family"] not in ("planted-rolls-edited", "wide-rolls-rewritten")]
+    tasks = ([("hist", [h]) for h in big_h] + [("cases", [h]) for h in heavy] + [("pricing_ladder", [x]) for x in pl_items] +
+             [("cases", c) for c in chunks(items, 8)] + [("hist", c) for c in chunks(small_h, 6)] +
+             [("pricing", c) for c in chunks(pr_items, 4)])
+    tagged = pmap(dispatch, tasks, chunksize=1)
+    results = [r for t, r in tagged if t == "cases"]
+    hist_res = [r for t, r in tagged if t == "hist"]
+    pr_res = [r for t, r in tagged if t == "pricing"]
+    pl_res = [r for t, r in tagged if t == "pricing_ladder"]
 
     per = {si: {"evals": 0, "usable": 0, "viol_cases": 0, "cpu": 0.0, "by_fn": {}, "by_ob": {}} for si in range(len(spaces))}
     nontriv = set()
@@ -516,7 +1146,7 @@ def run(ctx: Ctx):
             if kind == "timeout":
                 notes["timeouts"] += 1
                 if len(notes["examples"]) < 12:
-                    notes["examples"].append({"what": f"no return within {case.get('timeout')} s", "case": pub})
+                    notes["examples"].append({"what": f"no return within {case.get('cpu_budget', case.get('timeout'))} CPU s (or the wall-clock backstop)", "case": pub})
             elif kind == "exception":
                 notes["exceptions"] += 1
                 if len([e for e in notes["examples"] if e["what"] == what]) < 2 and len(notes["examples"]) < 12:
@@ -544,10 +1174,45 @@ def run(ctx: Ctx):
                 viol_by_ob[obn] = viol_by_ob.get(obn, 0) + 1
                 p["by_ob"][obn] = p["by_ob"].get(obn, 0) + 1
                 allv.append((obn, pub, detail))
+    # history mode
+    hagg = {"histories": 0, "calls": 0, "usable": 0, "repeated_compared": 0, "fresh_compared": 0, "arguments_modified_by_solver": 0,
+            "timeouts": 0, "exceptions": 0, "cpu": 0.0}
+    hfam: dict = {}
+    hviol = 0
+    for acc in hist_res:
+        for k in hagg:
+            hagg[k] += acc[k]
+        for d in acc["defects"]:
+            ctx.defects.append("C17 history: " + d)
+        for k in acc["keys"]:
+            nontriv.add(k)
+        for fam, c in acc["by_family"].items():
+            f = hfam.setdefault(fam, {"histories": 0, "calls": 0, "usable": 0, "violating_calls": 0})
+            for k in f:
+                f[k] += c[k]
+        for obn, case, detail in acc["viol"]:
+            hviol += 1
+            viol_by_ob[obn] = viol_by_ob.get(obn, 0) + 1
+            allv.append((obn, case, detail))
+    n_eval += hagg["calls"]
+    notes["timeouts"] += hagg["timeouts"]
+    notes["exceptions"] += hagg["exceptions"]
+    notes["history_mode_arguments_modified_by_solver"] = hagg["arguments_modified_by_solver"]
     # lemma block
-    pr_items, glen = gen_pricing(ctx.quick)
-    pr_res = pmap(pricing_worker, chunks(pr_items, 4), chunksize=1)
     pr_eval = pr_improving = pr_bad = 0
+    pl_eval = pl_improving = pl_bad = 0
+    for chunk_res in pl_res:
+        for case, improving, bad in chunk_res:
+            pl_eval += 1
+            n_eval += 1
+            if improving:
+                pl_improving += 1
+                nontriv.add(repr(sorted(case.items())))
+            if bad:
+                pl_bad += 1
+            for obn, detail in bad:
+                viol_by_ob[obn] = viol_by_ob.get(obn, 0) + 1
+                allv.append((obn, case, detail))
     for chunk_res in pr_res:
         for case, improving, bad in chunk_res:
             pr_eval += 1
@@ -580,6 +1245,15 @@ def run(ctx: Ctx):
             kw["blocks"] = ex_desc
         ctx.scope(name, **kw)
     ctx.scope("lemma: knapsack_pricing against exhaustive pattern enumeration (exact rationals)", **lemma_scope)
+    ctx.scope("lemma on the width ladder: knapsack_pricing on the width-ladder instances" + (" with width <= 1100" if ctx.quick else "") +
+              " against exhaustive pattern enumeration; dual vectors: grid values, 1/p everywhere, size/width, 65/64*size/width",
+              instances=len(pl_items), evaluations=pl_eval, with_improving_pattern=pl_improving, violating_evaluations=pl_bad)
+    ctx.scope("history mode: one demands list / piece_sizes list (custom: demands, initial_columns, the column list read by one pricing "
+              "function object) per history, edited in place between calls (element assignment, append, del); every call judged "
+              "against the oracle of the instance as passed; consecutive equal calls and the last call vs a fresh interpreter must agree",
+              histories=hagg["histories"], calls=hagg["calls"], usable_results=hagg["usable"], violations=hviol,
+              repeated_calls_compared=hagg["repeated_compared"], last_calls_compared_with_fresh_process=hagg["fresh_compared"],
+              solver_cpu_s=round(hagg["cpu"], 1), per_family=hfam)
     ctx.exhaustive = False
     ctx.rule = ("one evaluation = one call of solve_cg or solve_bp on one instance (+ options) with every clause of the contract "
                 "checked against the exact optimum (lemma block: one call of knapsack_pricing against the best of all patterns); exhaustive block: "
@@ -588,7 +1262,14 @@ def run(ctx: Ctx):
                 "demands, tiny budgets, custom column sets with infeasible/duplicate/zero initial columns. non-trivial = some demand "
                 "> 0 and the call returned OPTIMAL or FEASIBLE (the antecedent of every clause holds), lemma block: a pattern of value > 1 "
                 "exists; distinct = different "
-                "(mode, solver, sizes/columns, width, demands, options, pricer)")
+                "(mode, solver, sizes/columns, width, demands, options, pricer). "
+                "Round-2 families (own seeded generator): WIDTH LADDER = few piece types on wide rolls with planted zero-trim patterns of 2..4 "
+                "pieces, exact optimum from the same BFS oracle; TYPE-COUNT LADDER = 8..30 piece types, every planted roll filled exactly "
+                "(pieces longer than width/3, /4, /5 or /6), so the optimum is the number of planted rolls (= volume bound, checked "
+                f"per instance); solve_bp gets max_nodes={BP_NODE_LIMIT} on the non-pair families (obligation suffix @limited(max_nodes)), default "
+                "options elsewhere; HISTORY MODE = several calls on the same list objects edited in place, one evaluation per call, "
+                "non-trivial = a usable result after at least one in-place edit; distinct = different history prefix. "
+                "Per-call limits are CPU-time budgets (ITIMER_VIRTUAL); a call that exceeds its budget is counted, not judged")
     ctx.assumptions += [
         "objective is a float: 'equals' is taken as |objective - integer| <= 1e-6 (occurrences of inexact floats are counted in the notes)",
         "results with status other than OPTIMAL/FEASIBLE, exceptions and calls that do not return within the alarm are outside the statement "
@@ -596,12 +1277,21 @@ def run(ctx: Ctx):
         "custom mode: the pricing function is an exact pricer over the explicit column set (returns (None, 0.0) iff no column has reduced "
         "cost < -1e-7); the true minimum is over initial columns + that set",
         "bounded: nothing is claimed outside the enumerated/sampled scopes",
+        "history mode: the statement quantifies over instances only, so the Result is taken to be a function of the arguments: two "
+        "consecutive equal calls, and the last call of a history vs. the same call in a fresh interpreter, must return the same "
+        "(status, objective, plan) (obligation history:same-arguments-same-answer); calls that ran out of budget are not compared",
+        "type-count ladder: the optimum is not searched for; it is certified per instance by the planted plan (checked by check_plan) "
+        "having exactly ceil(total demanded length / width) rolls",
     ]
-    ctx.trusted += ["oracles/cutting_stock.py (BFS over residual demand vectors with witness plan; cross-checked in every run against an iterative-deepening search on seeded instances)"]
+    ctx.trusted += ["oracles/cutting_stock.py planted_optimum (volume bound + checked planted plan; cross-checked against the BFS on seeded "
+                    "planted instances with <= 9 types in every run)",
+                    "oracles/cutting_stock.py (BFS over residual demand vectors with witness plan; cross-checked in every run against an iterative-deepening search on seeded instances)"]
     oracle_selfcheck(ctx, rng, 200 if ctx.quick else 1500)
 
 
 def case_size(case):
+    if case.get("mode") == "history":
+        return (3, sum(len(st["calls"]) for st in case["steps"]), len(case["steps"]), len(repr(case)), 0)
     if case.get("mode") == "cs":
         return (0, len(case["sizes"]), case["width"], sum(case["demands"]), len(case.get("opts") or {}))
     if case.get("mode") == "custom":
@@ -626,6 +1316,12 @@ def report_violations(ctx, allv):
             ctx.violation(*v)
 
 
+def dispatch(task):
+    tag, chunk = task
+    fn = {"cases": worker_tagged, "hist": history_worker, "pricing": pricing_worker, "pricing_ladder": pricing_ladder_worker}[tag]
+    return tag, fn(chunk)
+
+
 def worker_tagged(chunk):
     out = []
     for inst in chunk:
@@ -636,7 +1332,27 @@ def worker_tagged(chunk):
 
 
 def oracle_selfcheck(ctx, rng, runs):
-    from oracles.cutting_stock import all_patterns, check_plan, min_rolls, min_rolls_dfs
+    from oracles.cutting_stock import all_patterns, check_plan, min_rolls, min_rolls_dfs, volume_bound
+    # the two optimum-by-construction arguments against the exact search
+    rng4 = random.Random(ctx.seed + 41)
+    for j in range(max(12, runs // 12)):
+        fam = TYPE_FAMILIES[j % len(TYPE_FAMILIES)]
+        inst = type_instance(rng4, fam, rng4.randint(4, 9), rng4.choice([40, 60, 64]), rng4.choice([3, 4, 6]) if fam.startswith("pairs") else 6)
+        if inst is None or len(inst["sizes"]) > 9 or max(inst["demands"]) > 3:
+            continue
+        k = oracle_opt(inst)[0]
+        k2 = min_rolls(inst["sizes"], inst["width"], inst["demands"])[0]
+        if k != k2:
+            ctx.defects.append(f"oracle self-check failed: planted optimum {k} but BFS {k2} on {inst}")
+            return
+    for j in range(max(12, runs // 12)):
+        inst = width_instance(rng4, rng4.choice([60, 100, 128, 250]))
+        if inst is None or not inst["family"].endswith("/pure"):
+            continue
+        k2 = min_rolls(inst["sizes"], inst["width"], inst["demands"])[0]
+        if volume_bound(inst["sizes"], inst["width"], inst["demands"]) != k2:
+            ctx.defects.append(f"oracle self-check failed: zero-trim instance {inst}: BFS {k2} != volume bound")
+            return
     for _ in range(runs):
         W = rng.randint(2, 10)
         n = rng.randint(1, 3)
@@ -662,6 +1378,8 @@ def replay(rec) -> int:
         if not bad:
             print("  no violation")
         return 1 if bad else 0
+    if case.get("mode") == "history":
+        return replay_history(case, rec.get("obligation", ""))
     opt, plan = oracle_opt(case)
     o = check_case(case, opt)
     print(f"case: {case}")
@@ -672,3 +1390,36 @@ def replay(rec) -> int:
     if not o["bad"]:
         print("  no violation")
     return 1 if o["bad"] else 0
+
+
+def replay_history(hist, obligation):
+    recs, last, mutated = run_history(hist, want_last=True)
+    bad = False
+    for si, ci, snap, opt, o, diff in recs:
+        shown = {k: v for k, v in snap.items() if k not in ("cpu_budget", "planted")}
+        print(f"step {si} call {ci}: {shown}")
+        print(f"   exact minimum {opt}; {o['kind']} status={o['status']} answer={o['summary']} cpu={o['seconds']:.3f}s {o.get('what') or ''}")
+        for obn, detail in o["bad"]:
+            bad = True
+            print(f"   VIOLATED {obn}: {detail}")
+        if diff:
+            bad = True
+            print(f"   VIOLATED C17/{fn_name(snap)}/history:same-arguments-same-answer: {diff}")
+    if hist.get("fresh") and last is not None:
+        there = fresh_process([last[0]])[0]
+        same = there == last[1]
+        print(f"fresh interpreter on the last call: {there}  ({'same answer' if same else 'DIFFERENT from ' + repr(last[1])})")
+        if not same and there[0] == "result" and last[1][0] == "result":
+            bad = True
+            print(f"   VIOLATED C17/{fn_name(last[0])}/history:same-arguments-same-answer")
+    if mutated:
+        print(f"note: the solver modified its argument lists {mutated} time(s) (rewritten before the next call)")
+    if not bad:
+        print("  no violation")
+    return 1 if bad else 0
+
+
+if __name__ == "__main__":
+    import sys
+    if "--fresh" in sys.argv:
+        fresh_main()
